@@ -106,6 +106,18 @@ def classify_calls(table, names=None):
     return expr_calls, lit_calls
 
 
+def near_structured_body(rng, env, game_is_eosd_anm=False):
+    """A jump-heavy flat body (see gensrc.gen_near_structured) for generated ANM / old-ECL files, or None if the environment lacks what it needs."""
+    from .gensrc import gen_near_structured, Env
+    if game_is_eosd_anm or len(env.int_vars) < 3 or 'goto' not in env.feats or 'condjump' not in env.feats: return None
+    calls = [c for c in env.calls if c[2] == ['S']]
+    if not calls: return None
+    e2 = Env(env.int_vars[:1], [], calls, env.feats)
+    st = gen_near_structured(rng, e2, list(env.int_vars[1:3]), feats={'timelabels'} & set(env.feats), sentinel=None)
+    st.used = set(st.used) | {'near-structured'}
+    return st
+
+
 class FileBodyGen(BodyGen):
     """BodyGen that can also call instructions whose arguments must be literals (strings, narrow ints, names)."""
     def __init__(self, rng, env, lit_calls, names, **kw):
@@ -193,8 +205,10 @@ def gen_anm(rng, game, tables, nscripts=None, **kw):
         text += anm_entry_text(r, game, e, sprites)
         n_here = total_scripts - si if e == nentries - 1 else r.randint(0, total_scripts - si)
         for _ in range(n_here):
-            g = FileBodyGen(r, env, lit_calls, names, max_depth=r.pick([1, 2, 3]), max_stmts=r.pick([2, 5, 8]), expr_depth=r.pick([1, 2, 3]))
-            b = g.generate()
+            b = near_structured_body(r, env, game == 'th06') if r.chance(0.2) else None
+            if b is None:
+                g = FileBodyGen(r, env, lit_calls, names, max_depth=r.pick([1, 2, 3]), max_stmts=r.pick([2, 5, 8]), expr_depth=r.pick([1, 2, 3]))
+                b = g.generate()
             used |= b.used; shape += b.shape
             num = ('%d ' % r.randint(0, 40)) if r.chance(0.3) else ''
             text += 'script %s%s %s\n' % (num, script_names[si], b.text)
@@ -330,8 +344,10 @@ def gen_ecl(rng, game, tables, **kw):
     text = ''
     used, shape = set(), []
     for s in subs:
-        g = FileBodyGen(r, env, lit_calls, names, max_depth=r.pick([1, 2, 3]), max_stmts=r.pick([2, 5, 8]), expr_depth=r.pick([1, 2, 3]))
-        b = g.generate()
+        b = near_structured_body(r, env) if r.chance(0.2) else None
+        if b is None:
+            g = FileBodyGen(r, env, lit_calls, names, max_depth=r.pick([1, 2, 3]), max_stmts=r.pick([2, 5, 8]), expr_depth=r.pick([1, 2, 3]))
+            b = g.generate()
         used |= b.used; shape += b.shape
         text += 'void %s() %s\n' % (s, b.text)
     tt = tables.get(game, 'timeline')
